@@ -189,3 +189,33 @@ def rule_cache(P, tables):
     if len(seen) < 3:
         raise E6Error("cache rule: too few sources_mut callers seen")
     return findings, obl, {"sources_mut_callers": len(seen)}
+
+
+def rule_fallback_order(P):
+    """The shape-preserving fallback of C19 for component 2x2 scales outside [-2, 2] is decomposition, decided in the glyph-order job.
+    The only OTHER restructuring it can choose, `GlyphOp::MoveContoursToComponent`, keeps the components: every place that chooses
+    it must already have tested `has_overflowing_component_transforms` (the call dominates the block that builds the variant),
+    otherwise a glyph with contours and an over-scaled component keeps the component and the backend clamps the scale."""
+    from prog import CFG
+    findings, obl = [], []
+    n = 0
+    for k, b in P.bodies.items():
+        if not k.startswith("fontir::glyph::") or "#promoted" in k:
+            continue
+        sites = [bi for bi, blk in enumerate(b["blocks"]) if not blk["cl"] for st in blk["s"]
+                 if st["rv"].get("r") == "agg" and st["rv"].get("adt") == "fontir::glyph::GlyphOp" and st["rv"].get("v") == "MoveContoursToComponent"]
+        if not sites:
+            continue
+        cfg = CFG(b)
+        tests = [s["bi"] for s in P.iter_sites(k) if s["kind"] == "call" and any(t.endswith("::has_overflowing_component_transforms") for t in s["targets"])]
+        for bi in sites:
+            n += 1
+            ok = any(cfg.dominates(t, bi) and t != bi for t in tests)
+            obl.append({"rule": "W-order", "inst": f"{k}: GlyphOp::MoveContoursToComponent is chosen only after has_overflowing_component_transforms was tested", "ok": ok})
+            if not ok:
+                findings.append({"rule": "W-order", "key": f"W-order|{k.rsplit('::', 1)[-1]}", "msg": f"{k} chooses GlyphOp::MoveContoursToComponent (the glyph keeps its components) on a path that has not tested "
+                                 f"has_overflowing_component_transforms: a component scale outside [-2, 2] then reaches the backend and is clamped to 1.99994 instead of being decomposed",
+                                 "loc": P.body_file_line(k), "detail": {}})
+    if n < 1:
+        raise RuntimeError("W-order: no construction of GlyphOp::MoveContoursToComponent found in fontir::glyph (enum renamed?)")
+    return findings, obl
